@@ -69,7 +69,9 @@ def prop_C11(tier, seed, rng):
     s1, g1 = tlc_scripts("GenPartTree", "GenPartTree.cfg" if quick else "GenPartTreeDeep.cfg", rng,
                          4000 if quick else 60000)
     s2 = part_gen.generate("c11", 600 if quick else 12000, seed)
-    fams = [Family("tlc", "part", "PartTrace", s1, g1), Family("shaped", "part", "PartTrace", s2)]
+    s3 = part_gen.generate("c12dense", 300 if quick else 6000, seed + 14)
+    fams = [Family("tlc", "part", "PartTrace", s1, g1), Family("shaped", "part", "PartTrace", s2),
+            Family("dense", "part", "PartTrace", s3)]
     return design, fams, ["C11_"], dict(
         rule="scripts = (a) one per transition of the bounded PartTree.tla state graph (TLC BFS+VIEW), "
              "(b) shaped random histories (fan-outs across 4/16/48/256, chains, binary keys, branching, clones, "
@@ -102,8 +104,11 @@ def prop_C12(tier, seed, rng):
                          4000 if quick else 60000)
     s2 = part_gen.generate("c12", 800 if quick else 15000, seed + 1)
     s3 = part_gen.generate("c12inner", 300 if quick else 6000, seed + 12)
+    s4 = part_gen.generate("c12dense", 600 if quick else 12000, seed + 13)
+    s5 = part_gen.generate("c12pairs", 1500 if quick else 100000, seed + 15)
     fams = [Family("tlc", "part", "PartTrace", s1, g1), Family("shaped", "part", "PartTrace", s2),
-            Family("innernodes", "part", "PartTrace", s3)]
+            Family("innernodes", "part", "PartTrace", s3), Family("dense", "part", "PartTrace", s4),
+            Family("pairs", "part", "PartTrace", s5)]
     return design, fams, ["C12_"], dict(
         rule="scripts = (a) one per transition of the bounded PartTree.tla state graph, (b) shaped linear histories "
              "with >=1 watch per transaction (Get on present/absent keys, Prefix incl. inside compressed paths, "
@@ -244,6 +249,9 @@ def sched_families(tier, seed, rng, prop, n_random_q, n_random_t, n_tlc_q, n_tlc
     fams = [Family("sched", "sched", "SchedTrace",
                    sched_gen.generate(n_random_q if quick else n_random_t, seed * 41 + int(prop[1:])),
                    env={"VERIF_FLUSH": "1"})]
+    fams.append(Family("sched-directed", "sched", "SchedTrace",
+                       sched_gen.generate_directed(n_random_q if quick else n_random_t, seed * 43 + int(prop[1:])),
+                       env={"VERIF_FLUSH": "1"}))
     cfg = "GenDBImpl2.cfg" if quick else "GenDBImpl3.cfg"
     r = core.tlc("GenDBImpl", cfg=cfg, subdir="gen", workers=1, heap="6g", timeout=1500)
     if not r["ok"]:
